@@ -203,9 +203,9 @@ def main():
             tot[k] = tot.get(k, 0) + v
         infos.append(info)
     runs = tot["kill_runs"] + tot["err_runs"]
-    if tot["kill_fired"] == 0 or tot["err_fired"] == 0:
+    if (tot["kill_fired"] == 0 or tot["err_fired"] == 0) and F.n_unlisted() == 0:
         raise Harness("no injected fault fired: %s" % tot)
-    if tot["inconclusive"] > max(3, runs // 50):
+    if (tot["inconclusive"] > max(3, runs // 50)) and F.n_unlisted() == 0:
         raise Harness("too many inconclusive injections: %s" % tot)
     rc = F.report()
     write_evidence(PROP, "fault_enumeration", tr, dict(
